@@ -44,11 +44,42 @@ def shards(tier, quick_len=4, thorough_len=6, quick_random=350, thorough_random=
     # product cells (vlib/cells.py): resolving opcode x call opcode x callee shape (incl. a memo
     # slot written twice) x fate of the value x framing, over two harmless globals
     out += [{"kind": "cells", "tier": tier, "part": i, "nparts": 8} for i in range(8)]
+    # one attribute name in two modules, every global dead before the next one is resolved
+    out += [{"kind": "rebinding", "part": i, "nparts": 4, "k": 3 if tier == "quick" else 4} for i in range(4)]
     per = quick_random if tier == "quick" else thorough_random
     out += [{"kind": "random", "n": per, "idx": i} for i in range(16)]
     pern = quick_natural if tier == "quick" else thorough_natural
     out += [{"kind": "natural", "n": pern, "idx": i} for i in range(8)]
     return out
+
+
+def rebinding_program(seq):
+    """units (module, use, resolving opcode) over ONE attribute name `f` in two modules; each unit
+    consumes its global before the next is resolved (no earlier same-named global stays reachable)"""
+    out = [b"("]
+    for j, (module, use, how) in enumerate(seq):
+        arg = b"K" + bytes([j + 1])
+        if how == "INST":
+            # INST resolves and calls in one opcode
+            out.append(b"(" + arg + f"i{module}\nf\n".encode())
+            if use in ("call_pop", "resolve_pop"):
+                out.append(b"0")
+            continue
+        if how == "GLOBAL":
+            resolve = f"c{module}\nf\n".encode()
+        else:
+            resolve = b"\x8c" + bytes([len(module)]) + module.encode() + b"\x8c\x01f\x93"
+        if use == "resolve_pop":
+            out.append(resolve + b"0")
+        elif use == "call_arg":
+            # the global itself is the argument of a call of a third, unrelated global
+            out.append(b"cverif_objs\nmake\n" + resolve + b"\x85R")
+        else:
+            out.append(resolve + arg + b"\x85R")
+            if use == "call_pop":
+                out.append(b"0")
+    out.append(b"t.")
+    return b"".join(out)
 
 
 def run_shard(spec, seed, judge, nt_prog, nt_bytes, focus=None, full=None):
@@ -108,8 +139,34 @@ def run_shard(spec, seed, judge, nt_prog, nt_bytes, focus=None, full=None):
                 break
         res.exhaustive = True
         res.extra["product_cells"] = n
+    elif spec["kind"] == "rebinding":
+        import itertools
+
+        units = list(itertools.product(("mod_a", "mod_b"), ("call_pop", "call_keep", "resolve_pop", "call_arg"),
+                                       ("GLOBAL", "STACK_GLOBAL", "INST")))  # fmt: skip
+        n = 0
+        for k in range(2, spec["k"] + 1):
+            for i, seq in enumerate(itertools.product(units, repeat=k)):
+                if i % spec["nparts"] != spec["part"]:
+                    continue
+                if len({u[0] for u in seq}) < 2:
+                    continue
+                data = rebinding_program(seq)
+                f, klass = judge(data, None)
+                n += 1
+                res.note(None, True, klass=[klass, "rebinding"], sample={"units": [list(u) for u in seq], "hex": data.hex()})
+                if f is not None:
+                    res.failures.append(f)
+                    res.extra["rebinding_programs"] = n
+                    return res
+        res.exhaustive = True
+        res.extra["rebinding_programs"] = n
     elif spec["kind"] == "random":
-        prof = full or asm.full_profile(vocab.ASM_GLOBS)
+        if spec["idx"] % 4 == 3 and full is None:
+            # the same attribute name in two modules, the second resolved once the first is dead
+            prof = asm.full_profile(vocab.ASM_GLOBS_COLLIDING, rebind_dead_names=True)
+        else:
+            prof = full or asm.full_profile(vocab.ASM_GLOBS)
 
         def body(prog):
             f, klass = judge(prog.data, prog)
